@@ -6,7 +6,7 @@
    here follows the Go code AS WRITTEN: Go slice expressions s[lo:hi] are [gslice s lo hi],
    `copy(dst[off:], src)` into a fixed-size array is [copy_at], fixed-size arrays
    (bin.Int128 / bin.Int256) start as zero arrays.  Constants and the pure decision
-   functions countPadding / getX / Side.DecryptSide / maxPadding come from the translator
+   functions countPadding / getX / Side.DecryptSide / minPadding / maxPadding come from the translator
    (Gen/CipherConsts.v). *)
 From Coq Require Import ZArith List Bool.
 From TD Require Import Lib.Bytes Lib.GoSem Gen.CipherConsts.
@@ -97,6 +97,7 @@ Inductive err :=
 | ELenNeg      (* "message length is invalid: %d less than zero" *)
 | ELenMod4     (* "message length is invalid: %d is not divisible by 4" *)
 | EPadBig      (* "padding %d of message is too big" *)
+| EPadSmall    (* "padding %d of message is too small" *)
 | EZeroKey     (* bind: "permanent key is zero" *)
 | EBind.       (* bind envelope / inner object does not parse (spec-side decryption only) *)
 
@@ -143,6 +144,7 @@ Definition check_lengths (d : dec) : res err dec :=
   let padding_len := Z.of_nat (length (d_body d)) - n in
   if n <? 0 then Err ELenNeg
   else if negb (Z.rem n 4 =? 0) then Err ELenMod4
+  else if padding_len <? c_minPadding then Err EPadSmall
   else if padding_len >? c_maxPadding then Err EPadBig
   else Ok d.
 
@@ -281,7 +283,7 @@ Section WithPrimitives.
     d = parse_data pt /\
     0 <= d_len d <= Z.of_nat (length (d_body d)) /\
     d_len d mod 4 = 0 /\
-    Z.of_nat (length (d_body d)) - d_len d <= c_maxPadding.
+    c_minPadding <= Z.of_nat (length (d_body d)) - d_len d <= c_maxPadding.
 
 
   (* ---------- statement vocabulary (used by the theorems of C04/C05) ---------- *)
